@@ -251,6 +251,23 @@ def run(ctx):
                 if any(o.kind == "call" and o.what == "bincode::deserialize" for o in src):
                     whole_store = True
                     ctx.ok("C20.2", "Metadata::restore", "replaces the state wholesale with the decoded value (*guard = recovered)", rest_b.relfile, site.line)
+        # ... and unchanged: nothing edits the decoded value (or the state) in restore - a receiver that drops or rewrites
+        # part of what the sender encoded no longer holds the sender's state
+        edits = []
+        for c_ in rest_b.calls(re.compile(r"(HashMap|BTreeMap|HashSet|BTreeSet|Vec|VecDeque)(::<[^>]*>)?::(retain|insert|remove|clear|entry|extend|push|pop|drain|truncate|sort\w*|dedup\w*|get_mut|iter_mut|values_mut|remove_entry|split_off|append)$")):
+            pr_ = provenance(rest_b, c_.node["args"][0]) if c_.node["args"] else set()
+            if any(o.kind == "field" and re.search(r"(TopicState|ClusterState)$", str(o.what[0])) for o in pr_):
+                edits.append(c_)
+        for site, st in rest_b.assigns():
+            p_ = st["place"]
+            if p_["p"] and isinstance(p_["p"][-1], dict) and re.search(r"(TopicState|ClusterState)$", str(p_["p"][-1].get("o") or "")):
+                edits.append(site)
+        if edits:
+            ctx.violate("C20.2", "Metadata::restore", "restored-state-edited", rest_b.relfile, edits[0].line,
+                        "restore changes the decoded state before (or after) installing it (%d edit(s), first at line %s): the receiver then differs from the sender in exactly what was "
+                        "edited - e.g. sealed segments with a count of 0 dropped by a `normalisation` - and the difference survives every later command" % (len(edits), edits[0].line))
+        else:
+            ctx.ok("C20.2", "Metadata::restore", "the decoded state is installed as it was decoded (no edit of it in restore)", rest_b.relfile, rest_b.line)
         if not whole_store:
             # merging calls?
             merges = [callee_name(s.node).split("::")[-1] for s in rest_b.calls(re.compile(r"HashMap::(extend|insert|entry)$"))]
